@@ -93,6 +93,18 @@ func clonehistOne(hist []chOp, corpus string, rep *Report) {
 					rep.violate(Violation{Property: "C03", Kind: "chain-depends-on-history", Text: histString(hist), Limit: 3072, Detail: msg, Key: "C03|clonehist|" + histString(hist)})
 				}
 			}
+			// whatever the history: every reported ancestor is a format whose signature accepts this input (C03)
+			for p, i := m, 0; p != nil && i < 32; p, i = p.Parent(), i+1 {
+				node := findNode(baseType(p.String()), p.Extension())
+				if node == nil || node == mimetype.VerifRoot() {
+					continue
+				}
+				if det := mimetype.VerifDetector(node); det != nil && !det(exact(in), 3072) {
+					rep.violate(Violation{Property: "C03", Kind: "ancestor-does-not-match", Text: histString(hist), Limit: 3072,
+						Detail: fmt.Sprintf("history %s step %d: chain %v contains %s%s whose signature rejects the input", histString(hist), step+1, got, p.String(), p.Extension()), Key: "C03|clonehist-anc|" + histString(hist)})
+					break
+				}
+			}
 			if op.Params != strings.Contains(m.String(), ";") && !extCopySeen {
 				rep.drift(fmt.Sprintf("history %s step %d: result %s, specification params=%v", histString(hist), step+1, m, op.Params))
 			}
